@@ -908,3 +908,5 @@ def run(ck):
 #  c27-prefix-marked-complete-before-processing                   -> bucket-skipped-in-cycle                      CAUGHT
 #  c27-last-prefix-index-not-reset-at-cycle-end                   -> bucket-skipped-in-cycle                      CAUGHT
 #  seeded/C27-1 (bucket_cache not overwritten for missing prefix dirs)     -> bucket-skipped-in-cycle (bucket added between two cycles)    CAUGHT
+#  seeded/C27-5 (resume by exact match of last-complete-bucket)                -> bucket-processed-twice-without-kill (marker bucket removed between slices) CAUGHT
+#  seeded/C27-6 (empty lease-age histogram not converted back on reload)       -> lease-checker-resume-histogram-not-a-dict (state saved after empty prefixes) CAUGHT
